@@ -479,6 +479,63 @@ func (w *World) registerIntrinsics() {
 		e.store(fp, &BytesVal{s: mkStr("")})
 		return nil
 	}
+	// bytes.Buffer used as an append-only scratch buffer: its buf field holds one string term
+	// (reads that consume the buffer are not modelled)
+	bbBuf := func(e *Exec, recv Value) (*Pointer, *Term) {
+		p := recv.(*Pointer)
+		if isNilPtr(p) {
+			e.panicHere("nil pointer dereference (nil *bytes.Buffer)")
+		}
+		fp := p.sub(0)
+		switch b := e.load(fp).(type) {
+		case *BytesVal:
+			return fp, b.s
+		case *SliceVal:
+			if b.isNil || b.n == 0 {
+				return fp, mkStr("")
+			}
+			return fp, e.bytesTerm(b)
+		}
+		return fp, mkStr("")
+	}
+	I["(*bytes.Buffer).WriteString"] = func(e *Exec, fn *ssa.Function, a []Value) Value {
+		fp, cur := bbBuf(e, a[0])
+		e.store(fp, &BytesVal{s: mkConcat(cur, a[1].(*Term))})
+		return tuple(mkLen(a[1].(*Term)), nilIface)
+	}
+	I["(*bytes.Buffer).Write"] = func(e *Exec, fn *ssa.Function, a []Value) Value {
+		fp, cur := bbBuf(e, a[0])
+		t := e.bytesTermOrEmpty(a[1])
+		e.store(fp, &BytesVal{s: mkConcat(cur, t)})
+		return tuple(mkLen(t), nilIface)
+	}
+	I["(*bytes.Buffer).WriteByte"] = func(e *Exec, fn *ssa.Function, a []Value) Value {
+		fp, cur := bbBuf(e, a[0])
+		e.store(fp, &BytesVal{s: mkConcat(cur, mkFromCode(e.byteToCode(a[1].(*Term))))})
+		return nilIface
+	}
+	I["(*bytes.Buffer).Bytes"] = func(e *Exec, fn *ssa.Function, a []Value) Value {
+		_, cur := bbBuf(e, a[0])
+		return &BytesVal{s: cur}
+	}
+	I["(*bytes.Buffer).String"] = func(e *Exec, fn *ssa.Function, a []Value) Value {
+		p := a[0].(*Pointer)
+		if isNilPtr(p) {
+			return mkStr("<nil>")
+		}
+		_, cur := bbBuf(e, a[0])
+		return cur
+	}
+	I["(*bytes.Buffer).Len"] = func(e *Exec, fn *ssa.Function, a []Value) Value {
+		_, cur := bbBuf(e, a[0])
+		return mkLen(cur)
+	}
+	I["(*bytes.Buffer).Grow"] = func(e *Exec, fn *ssa.Function, a []Value) Value { return nil }
+	I["(*bytes.Buffer).Reset"] = func(e *Exec, fn *ssa.Function, a []Value) Value {
+		fp, _ := bbBuf(e, a[0])
+		e.store(fp, &BytesVal{s: mkStr("")})
+		return nil
+	}
 	I["(*strings.Builder).copyCheck"] = func(e *Exec, fn *ssa.Function, a []Value) Value { return nil }
 	// the standard streams: opaque files that swallow what is written to them
 	I["os.NewFile"] = func(e *Exec, fn *ssa.Function, a []Value) Value {
